@@ -424,6 +424,12 @@ class Runner:
                 a = ('obj', str(q))
                 st = k
                 en = rng.choice([None, k + 1, k + 2, len(x._s)])
+                ends = [k2 for k2, p2 in x._fmts.items() if any(r is q for r in p2.rem)]
+                if ends and rng.random() < 0.5:
+                    # ... or over exactly the range of an equal-valued setting that is already there
+                    starts = [k1 for k1, p1 in x._fmts.items() if any(r is q for r in p1.add)]
+                    if starts:
+                        st, en = starts[0], ends[0]
         self.do_apply(x, a, st, en, top)
 
     def do_apply(self, x, a, st, en, top):
@@ -468,6 +474,22 @@ class Runner:
                 break
             if Nref is None:
                 Nref = O.texts(added)
+                if a[0] == 'obj' and Nref != [P.obj_text(a[1])]:
+                    viol.append(('C06', 'apply_inside_adds', 'i=%d: the setting %r was to be added, new on this character: %r' % (i, P.obj_text(a[1]), Nref)))
+                    break
+                if a[0] == 'str' and a[1].startswith('[') and len(a[1]) > 1:
+                    # verbatim: the text after '[' is the setting, its flags are what the grammar says (C15)
+                    t = a[1][1:]
+                    if Nref == [t]:
+                        so = x.ansi_settings_at(i)[[q[0] for q in new].index(added[0][0])]
+                        if so.valid != O.grammar_valid(t):
+                            viol.append(('C15', 'valid_iff', 'verbatim %r applied: valid=%r' % (t, so.valid)))
+                        if t.isascii() and so.parsable != O.grammar_parsable(t):
+                            viol.append(('C15', 'parsable_iff', 'verbatim %r applied: parsable=%r' % (t, so.parsable)))
+                    if Nref != [t]:
+                        viol.append(('C15', 'verbatim_intact', 'apply(%r): new setting texts %r' % (a[1], Nref)))
+                        viol.append(('C06', 'apply_inside_adds', 'apply(%r): new setting texts %r' % (a[1], Nref)))
+                        break
             elif O.texts(added) != Nref:
                 viol.append(('C06', 'apply_inside_same', 'i=%d' % i))
                 break
@@ -1424,7 +1446,7 @@ class Runner:
             t = x._s
         regex = rng.random() < 0.35
         if regex:
-            pat = rng.choice(['a+', 'a*', '[ab]', 'b?', '(a)(b)?', '\\s', '.', 'a|b', '^', '$', 'x*', '(?:ab)+'])
+            pat = rng.choice(['a+', 'a*', '[ab]', 'b?', '(a)(b)?', '\\s', '.', 'a|b', '^', '$', 'x*', '(?:ab)+', '^a', '^.', '.$', 'b$', '^\\w+', '\\w$', '^[ab]|c$'])
         else:
             pat = rng.choice([self.pattern(x), self.pattern(x), t, t[:3], t[-3:], '.', 'a.', '(', 'a+', '[', '\\', 'A', 'B', '*', '++', '(a)', '[1+1]'])
         mc = rng.random() < 0.4
@@ -1597,6 +1619,16 @@ class Runner:
         if mo is not None:
             calls.append(('apply_formatting_for_match', (arg, mo), {}))
             calls.append(('apply_formatting_for_match', (arg, mo, 0), {}))
+        # ---- short-lived AnsiStr objects made from different values: each answers for its own value
+        #      (an answer remembered for an object that no longer exists must not come back)
+        for _ in range(3):
+            v = self.pick()
+            k = rng.randint(0, max(0, len(v._s) - 1))
+            got = self.call(lambda: ([str(q) for q in self.S(v).ansi_settings_at(k)], self.S(v).settings_at(k), self.S(v).find_settings(arg)))
+            ref = self.call(lambda: ([str(q) for q in v.ansi_settings_at(k)], v.settings_at(k), v.find_settings(arg)))
+            if got[0] != ref[0] or (got[0] == 'ok' and got[1] != ref[1]):
+                viol.append(('C13', 'ansistr_op_eq', 'a fresh AnsiStr of %r answers %r at %d, the AnsiString %r' % (v._s, got[1], k, ref[1])))
+                viol.append(('C17', 'ansistr_twin', 'a fresh AnsiStr of %r answers %r at %d, the AnsiString %r' % (v._s, got[1], k, ref[1])))
         # ---- things that are not plain method calls
         r1 = self.call(lambda: [str(c) for c in a]); r2 = self.call(lambda: [str(c) for c in x])
         if r1 != r2 and not (r1[0] == 'err' and r2[0] == 'err'):
